@@ -264,6 +264,10 @@ def enum_S3(tier):
     for a, b in itertools.permutations(names, 2):
         if names.index(a) > names.index(b):
             yield {"reactions": PRIMORDIAL, "cooling": [a, b], "family": "S3"}
+    # the same chemistry with the electron in its other spelling (the cooling processes name it 'e-' themselves)
+    prim_e = [[["E" if x == "e-" else x for x in r], ["E" if x == "e-" else x for x in p_]] for r, p_ in PRIMORDIAL]
+    for c in [c for n in ((1, 11) if tier == "quick" else (1, 2, 11)) for c in itertools.combinations(names, n)]:
+        yield {"reactions": prim_e, "cooling": list(c), "family": "S3"}
     # thermal + required-only and empty networks
     yield {"reactions": [], "required": ["H", "e-"], "cooling": ["CIC_HI"], "family": "S3"}
 
